@@ -77,7 +77,7 @@ SwapTy(ty)   == IF ty.t = "either" THEN SwapEi(ty)
                 ELSE IF ty.t = "maybe" /\ ty.of.t = "either" THEN Mb(SwapEi(ty.of)) ELSE ty
 SwapShape(sh) == [i \in 1..Len(sh) |-> SwapTy(sh[i])]
 
-\* label of a kind = its TL-B text; the two Either kinds that put ^ on one side of two different types share a label
+\* label of a kind = its TL-B text, except that an Either with ^ in an unusual place is labelled by its class (EiClass)
 RECURSIVE TyText(_)
 TyText(ty) ==
   CASE ty.t \in {"uint", "int", "bits"} -> StrCat(ty.t, ToString(ty.n))
